@@ -32,14 +32,14 @@ def cases(tier, seed):
     rng = random.Random('C02|%d' % seed)
     T = tier == 'thorough'
     cs = []
-    for i in range(600 if not T else 12000):
+    for i in range(2000 if not T else 40000):
         d = rng.choice([1, 2, 2, 3, 3, 4, 4, 5, 6, 7])
         ttm = i % 4 == 3
         pool = (1, 2, 3, 4, 5) if d <= 4 else (1, 2, 3)
         cs.append({'gen': 'random', 'kind': KINDS[i % len(KINDS)], 'N': [rng.choice(pool) for _ in range(d)], 'M': [rng.choice((1, 2, 3) if d <= 4 else (1, 2)) for _ in range(d)] if ttm else None,
                    'dtype': DTS[(i // 9) % 4], 'eps': [0.0, 1e-14, 1e-12, 1e-8, 1e-4, 1e-2, 0.1, 0.5][(i // 2) % 8] if i % 3 else 10 ** rng.uniform(-13, -0.3),
                    'rmax': ['none', 'none', 'int', 'list'][(i // 7) % 4]})
-    for i in range(50 if not T else 1000):
+    for i in range(150 if not T else 2500):
         d = rng.choice([2, 3, 3, 4, 5])
         kind = ['gauge_int', 'gauge', 'inflated', 'gauge_flat', 'gauss', 'gauge_int'][i % 6]
         ttm = i % 5 == 4
